@@ -1011,3 +1011,138 @@ Proof.
   destruct (isolation_step w o HI Hp1) as (A & B & L).
   unfold run; cbn. fold (run os (exec o w)). rewrite IH; auto. lia.
 Qed.
+
+(* ================================================================== functional correctness of slices
+   resolve: the positions (in the root buffer) and shape selected by a path of VIEW slices (nested basic slices),
+   innermost slice last; 0-d results are excluded *)
+Fixpoint resolve (ix : list nat) (shp : list Z) (p : list slc) : option (list nat * list Z) :=
+  match p with
+  | [] => Some (ix, shp)
+  | s :: p' =>
+      match resolve ix shp p' with
+      | Some (ix', shp') =>
+          match lookup_slc s shp' with
+          | Some si =>
+              match si_kind si, si_shape si with
+              | KView, _ :: _ => Some (sub_ix ix' (si_idx si), si_shape si)
+              | _, _ => None
+              end
+          | None => None
+          end
+      | None => None
+      end
+  end.
+
+Lemma resolve_cons ix shp s p jx shp1 :
+  resolve ix shp (s :: p) = Some (jx, shp1) ->
+  exists jx' shp' si, resolve ix shp p = Some (jx', shp') /\ lookup_slc s shp' = Some si /\ si_kind si = KView /\
+                      shp1 = si_shape si /\ shp1 <> [] /\ jx = sub_ix jx' (si_idx si).
+Proof.
+  cbn. destruct (resolve ix shp p) as [[jx' shp']|]; [|discriminate].
+  destruct (lookup_slc s shp') as [si|] eqn:El; [|discriminate].
+  destruct (si_kind si) eqn:Ek; try discriminate. destruct (si_shape si) eqn:Es; [discriminate|].
+  intros H; inversion H; subst. exists jx', shp', si. repeat split; auto. congruence.
+Qed.
+
+Lemma resolve_shape ix ix' shp p : forall a s1 b s2,
+  resolve ix shp p = Some (a, s1) -> resolve ix' shp p = Some (b, s2) -> s1 = s2.
+Proof.
+  induction p as [|s p IH]; intros a s1 b s2 H1 H2.
+  - cbn in *. inversion H1; inversion H2; subst; reflexivity.
+  - apply resolve_cons in H1 as (j1 & t1 & si1 & R1 & L1 & K1 & E1 & N1 & X1).
+    apply resolve_cons in H2 as (j2 & t2 & si2 & R2 & L2 & K2 & E2 & N2 & X2).
+    pose proof (IH _ _ _ _ R1 R2) as Et. subst t2. rewrite L1 in L2. inversion L2; subst. reflexivity.
+Qed.
+
+Lemma bind_ok {A B} (m : M A) (f : A -> M B) w w1 a : m w = (w1, Ok a) -> bind m f w = f a w1.
+Proof. intros H. unfold bind. rewrite H. reflexivity. Qed.
+
+Lemma getitem_view r ix shp s si w :
+  lookup_slc s shp = Some si -> si_kind si = KView ->
+  getitem (VWin r ix shp) s w = (w, Ok (VWin r (sub_ix ix (si_idx si)) (si_shape si))).
+Proof. intros L K. cbn. rewrite L, K. reflexivity. Qed.
+
+Definition copy_buf (h : list buf) (r : nat) (tix : list nat) : buf :=
+  {| bdata := rd h r tix; bcplx := bcplx (getbuf h r) |}.
+
+Lemma rd_length h r ix : length (rd h r ix) = length ix.
+Proof. apply map_length. Qed.
+
+Lemma getitem_copy r ix shp s si w :
+  lookup_slc s shp = Some si -> si_kind si = KCopy ->
+  getitem (VWin r ix shp) s w =
+    (set_heap w (heap w ++ [copy_buf (heap w) r (sub_ix ix (si_idx si))]),
+     Ok (VWin (length (heap w)) (whole (length (si_idx si))) (si_shape si))).
+Proof.
+  intros L K. cbn. rewrite L, K. unfold bind, mread, mcplx, new_array, bind, halloc, ret. cbn.
+  rewrite rd_length. unfold sub_ix. rewrite map_length. reflexivity.
+Qed.
+
+(* a getter through a path of views returns the window, without touching the world *)
+Lemma get_fld_view f i p : forall w r ix shp jx shp1,
+  f (root w i) = VWin r ix shp -> resolve ix shp p = Some (jx, shp1) ->
+  get_fld f i p w = (w, Ok (VWin r jx shp1)).
+Proof.
+  induction p as [|s p IH]; intros w r ix shp jx shp1 Hf Hr.
+  - cbn in Hr; inversion Hr; subst. cbn. unfold bind, get_root, ret. fold (root w i). rewrite Hf. reflexivity.
+  - apply resolve_cons in Hr as (jx' & shp' & si & R & L & K & E & N & X). subst.
+    cbn [get_fld]. rewrite (bind_ok _ _ _ _ _ (IH w r ix shp jx' shp' Hf R)).
+    apply getitem_view; assumption.
+Qed.
+
+Lemma get_fld_none f i p : forall w, f (root w i) = VNone -> get_fld f i p w = (w, Ok VNone).
+Proof.
+  induction p as [|s p IH]; intros w Hf.
+  - cbn. unfold bind, get_root, ret. fold (root w i). rewrite Hf. reflexivity.
+  - cbn [get_fld]. rewrite (bind_ok _ _ _ _ _ (IH w Hf)). reflexivity.
+Qed.
+
+(* ---- values that can be assigned to / added onto a target of shape shp with n entries *)
+Definition vdata (h : list buf) (x : val) (n : nat) : list C :=
+  match x with
+  | VNone => []
+  | VScal c _ _ => repeat c n
+  | VWin r ix _ => rd h r ix
+  end.
+Definition vcplx (h : list buf) (x : val) : bool :=
+  match x with VNone => false | VScal _ cx _ => cx | VWin r _ _ => bcplx (getbuf h r) end.
+(* scalar, or array of exactly the target's (non 0-d) shape; complex only onto complex *)
+Definition fits (h : list buf) (x : val) (shp : list Z) (n : nat) (tcx : bool) : Prop :=
+  (vcplx h x = true -> tcx = true) /\
+  match x with
+  | VNone => False
+  | VScal _ _ _ => True
+  | VWin r ix shp' => shp' = shp /\ shp <> [] /\ length ix = n
+  end.
+
+Lemma Zl_eqb_refl l : Zl_eqb l l = true.
+Proof. apply (list_eqb_spec Z.eqb Z.eqb_eq). reflexivity. Qed.
+
+Lemma guard_false (a b : bool) : (a = true -> b = true) -> a && negb b = false.
+Proof. destruct a, b; cbn; intros H; auto. discriminate (H eq_refl). Qed.
+
+Lemma assign_fits r tix shp x w :
+  fits (heap w) x shp (length tix) (bcplx (getbuf (heap w) r)) ->
+  assign r tix false shp x w = (set_heap w (hwrite (heap w) r tix (vdata (heap w) x (length tix))), Ok tt).
+Proof.
+  intros [Hc Hx]. destruct x as [|c cx np|r' ix' shp']; [destruct Hx| |].
+  - cbn in *. unfold bind, mcplx. rewrite (guard_false _ _ Hc). reflexivity.
+  - destruct Hx as (-> & Hne & Hl). cbn in Hc. cbn [assign vdata]. unfold bind, mread, mcplx.
+    destruct shp as [|z shp]; [congruence|]. rewrite Zl_eqb_refl. cbn [negb]. rewrite (guard_false _ _ Hc). reflexivity.
+Qed.
+
+Lemma map_cadd_repeat c cur : map (fun a => cadd a c) cur = map2 cadd cur (repeat c (length cur)).
+Proof. induction cur as [|x t IH]; cbn; [reflexivity|]. rewrite IH. reflexivity. Qed.
+
+Lemma iadd_fits r ix shp x w :
+  fits (heap w) x shp (length ix) (bcplx (getbuf (heap w) r)) ->
+  iadd (VWin r ix shp) x w =
+    (set_heap w (hwrite (heap w) r ix (map2 cadd (rd (heap w) r ix) (vdata (heap w) x (length ix)))), Ok (VWin r ix shp)).
+Proof.
+  intros [Hc Hx]. destruct x as [|c cx np|r' ix' shp']; [destruct Hx| |].
+  - cbn in *. unfold bind, mcplx, mread. rewrite (guard_false _ _ Hc). unfold mwrite, ret.
+    rewrite map_cadd_repeat, rd_length. reflexivity.
+  - destruct Hx as (-> & Hne & Hl). cbn in Hc. cbn [iadd vdata]. unfold bind, mread, mcplx.
+    rewrite (guard_false _ _ Hc). destruct shp as [|z shp]; [congruence|]. rewrite Zl_eqb_refl. cbn [negb].
+    unfold mwrite, ret. reflexivity.
+Qed.
